@@ -24,6 +24,10 @@ pub struct ChaosCase {
     /// original handle (the decisions must not depend on which handle serves a request)
     #[serde(default)]
     pub clone_mask: u64,
+    /// set latency rate, bounds and seed on the builder before error_rate/error_fn (which change
+    /// the builder's type and copy the fields) instead of after
+    #[serde(default)]
+    pub settings_first: bool,
 }
 
 fn rate() -> BoxedStrategy<u16> {
@@ -45,9 +49,9 @@ fn case_strategy(tier: Tier) -> BoxedStrategy<ChaosCase> {
             (prop_oneof![2 => Just(0u8), 1 => 1u8..=5], prop_oneof![2 => Just(0u8), 1 => 0u8..=8], prop::bool::weighted(0.8)),
             1..=max_reqs,
         ),
-        prop_oneof![1 => Just(0u64), 1 => Just(u64::MAX), 2 => any::<u64>()],
+        (prop_oneof![1 => Just(0u64), 1 => Just(u64::MAX), 2 => any::<u64>()], any::<bool>()),
     )
-        .prop_map(|(seed, error_rate, latency_rate, min_ms, max_ms, requests, clone_mask)| ChaosCase {
+        .prop_map(|(seed, error_rate, latency_rate, min_ms, max_ms, requests, (clone_mask, settings_first))| ChaosCase {
             seed,
             error_rate,
             latency_rate,
@@ -55,6 +59,7 @@ fn case_strategy(tier: Tier) -> BoxedStrategy<ChaosCase> {
             max_ms,
             requests,
             clone_mask,
+            settings_first,
         })
         .boxed()
 }
@@ -89,22 +94,37 @@ async fn trace(case: &ChaosCase, which: u8) -> (Vec<Obs>, Vec<String>) {
             Step::err(lat as u64, 3)
         }
     });
-    let layer = ChaosLayer::builder()
-        .name("vcheck")
-        .error_rate(case.error_rate as f64 / 1000.0)
-        .error_fn(|r: &Req| SErr {
-            code: INJECTED,
-            serial: r.tag,
-        })
-        .latency_rate(case.latency_rate as f64 / 1000.0)
-        .min_latency(Duration::from_millis(case.min_ms))
-        .max_latency(Duration::from_millis(case.max_ms))
-        .seed(case.seed)
-        .on_latency_injected({
-            let l = log.clone();
-            move |d: Duration| l.note("latency_injected", sim::current_task() as i64, d.as_millis() as i64)
-        })
-        .build();
+    let announce = {
+        let l = log.clone();
+        move |d: Duration| l.note("latency_injected", sim::current_task() as i64, d.as_millis() as i64)
+    };
+    let err_fn = |r: &Req| SErr {
+        code: INJECTED,
+        serial: r.tag,
+    };
+    let layer = if case.settings_first {
+        ChaosLayer::builder()
+            .name("vcheck")
+            .latency_rate(case.latency_rate as f64 / 1000.0)
+            .min_latency(Duration::from_millis(case.min_ms))
+            .max_latency(Duration::from_millis(case.max_ms))
+            .seed(case.seed)
+            .on_latency_injected(announce)
+            .error_rate(case.error_rate as f64 / 1000.0)
+            .error_fn(err_fn)
+            .build()
+    } else {
+        ChaosLayer::builder()
+            .name("vcheck")
+            .error_rate(case.error_rate as f64 / 1000.0)
+            .error_fn(err_fn)
+            .latency_rate(case.latency_rate as f64 / 1000.0)
+            .min_latency(Duration::from_millis(case.min_ms))
+            .max_latency(Duration::from_millis(case.max_ms))
+            .seed(case.seed)
+            .on_latency_injected(announce)
+            .build()
+    };
     let mut svc = if which == 1 {
         let _first = layer.layer(inner.clone());
         layer.layer(inner.clone())
